@@ -226,7 +226,7 @@ def calls_queries_CompoundQuery : List (String × List String) := [
 def calls_queries_SimpleQuery : List (String × List String) := [
   ("__init__", []),
   ("point_attr", []),
-  ("__call__", ["<except Exception>", "getattr", "self._path_resolver", "self._test"]),
+  ("__call__", ["<except Exception>", "bool", "getattr", "self._path_resolver", "self._test"]),
   ("__hash__", ["hash"]),
   ("__repr__", []),
   ("__eq__", ["bool", "isinstance"]),
@@ -242,7 +242,7 @@ def calls_queries_BaseQuery : List (String × List String) := [
   ("__hash__", ["hash"]),
   ("__getattr__", ["<raise RuntimeError>", "RuntimeError", "self.is_hashable", "type", "type(self)"]),
   ("__getitem__", ["self.__getattr__"]),
-  ("_generate_simple_query", ["<raise RuntimeError>", "<raise TypeError>", "RuntimeError", "SimpleQuery", "TypeError", "isinstance", "self.is_hashable"]),
+  ("_generate_simple_query", ["<raise RuntimeError>", "<raise TypeError>", "RuntimeError", "SimpleQuery", "TypeError", "isinstance", "rhs.astimezone", "self.is_hashable"]),
   ("_generate_simple_query.test", ["<except Exception>", "operator"]),
   ("_generate_simple_query.path_resolver", ["<except Exception>", "<raise e>", "isinstance", "part"]),
   ("__eq__", ["self._generate_simple_query"]),
